@@ -35,7 +35,7 @@ class Param(SymVal):
         if op == 'Eq': return self == other
         if op == 'NotEq': return not (self == other)
         raise Outside('ordering of parameters')
-    def sym_is(self, it, other): return self == other
+    def sym_is(self, it, other): return self is other      # lexical items are cached, not interned: equal items need not be identical
     def sym_binop(self, it, op, other, reflected):
         # Constant.__rshift__: c >> quantified  == quantified.unquantify(c)
         if op == 'RShift' and not reflected and self.kind == 'const':
@@ -158,7 +158,7 @@ class STerm(SymVal):
         if op == 'Eq': return self == other
         if op == 'NotEq': return not (self == other)
         raise Outside('ordering of sentences')
-    def sym_is(self, it, other): return self is other or self == other
+    def sym_is(self, it, other): return self is other      # equal sentences need not be the same object (bounded item cache)
     def sym_type(self, it):
         from pytableaux.lang import Operated, Quantified
         if self.kind == 'op': return Operated
